@@ -21,7 +21,7 @@
 
 """Dbc writer."""
 
-from beartype.typing import Tuple, List, Dict, Any
+from beartype.typing import Tuple, List, Dict, Any, Optional
 from math import ceil
 from collections import defaultdict
 
@@ -44,19 +44,42 @@ def _make_signals(
     signals = []
     dlc = 0
 
-    mux_signals = [
-        piece.extended_data.get("mux_signal")
-        for piece in encoding
-        if piece.extended_data.get("mux_signal") is not None
-    ]
+    def resolve_mux(piece: EncodeablePiece) -> Optional[str]:
+        """Find the piece a mux_signal option refers to: a field next to the muxed one."""
+        mux_signal = piece.extended_data.get("mux_signal")
+        if mux_signal is None:
+            return None
+
+        prefix = piece.name[: piece.name.rfind("::") + 2] if "::" in piece.name else ""
+        names = [p.name for p in encoding]
+        for candidate in (prefix + str(mux_signal), str(mux_signal)):
+            if candidate in names:
+                return candidate
+
+        raise ValueError(
+            f"Signal {piece.name} of {type} is multiplexed by {mux_signal}, which is not a signal of the message"
+        )
+
+    mux_signals = [resolve_mux(piece) for piece in encoding]
 
     msg_bitlength = encoding[-1].bitstart + encoding[-1].bitlength
     if msg_bitlength > 64:
         raise ValueError(f"Message {type} too big. Current length: {msg_bitlength}")
 
     for piece in encoding:
+        mux_signal = resolve_mux(piece)
         mux_count = piece.extended_data.get("mux_count")
         mux_ids = list(range(0, mux_count)) if mux_count is not None else None
+        if mux_signal is not None and not mux_ids:
+            raise ValueError(
+                f"Signal {piece.name} of {type} has a mux_signal but no mux_count"
+            )
+
+        if piece.endianess == "big" and (piece.bitstart % 8 or piece.bitlength % 8):
+            # the Motorola start bit below is only the piece's own slot for whole bytes
+            raise ValueError(
+                f"Big endian signal {piece.name} of {type} is not a whole number of bytes at a byte boundary"
+            )
 
         signals.append(
             CanSignal(
@@ -76,7 +99,9 @@ def _make_signals(
                 comment=None,
                 is_multiplexer=piece.name in mux_signals,
                 multiplexer_ids=mux_ids,
-                multiplexer_signal=piece.extended_data.get("mux_signal"),
+                multiplexer_signal=(
+                    mux_signal.replace("::", "_") if mux_signal is not None else None
+                ),
             )
         )
 
